@@ -99,6 +99,9 @@ def rand_config(rnd, kind=None):
         cfg["prefver"] = rnd.choice([["a"], ["b"], ["a", "b"], ["ab", "ba"], ["aa", "b"], ["ab"], ["a", "ab", "b"]])
         cfg["prefver"] = [p for p in cfg["prefver"] if set(p) <= set(alpha)] or None
     if kind == "reverse_needed":
+        if rnd.random() < 0.5:  # reverse union rules with several statistics and unusual dictionary orders / dropped statistics
+            cfg["params"] = [p for p in rnd.choice([upword.PARAM_SETS[3], upword.PARAM_SETS[4], [("k_0", "a", 0), ("k_1", "b", 0)]]) if p[1] in alpha]
+            cfg["mode"] = rnd.choice(["revnames", "rename revnames", "drop", "drop rename last"]) if cfg["params"] else ""
         cfg.update(db="RuleDBForest", reverse_needed=True, prefix=rnd.choice(["b", "a"]) if len(alpha) > 1 else "a",
                    factory=None, inferral=False, symmetry=False, iterative=False, smallest=False, prefver=None)
     if kind == "packver":
